@@ -153,13 +153,15 @@ func runWorker(prop, tier string, seed int64, w int) (out workerOut) {
 		return convert(special.Run(special.Args{Prop: prop, Tier: tier, Seed: seed, Worker: w, Known: known, ReplayDir: *fReplayD, Steps: pl.steps, Variants: pl.variants}))
 	}
 	var engines []*eng.Engine
-	mons := monitorsFor(prop, known)
-	if mons == nil {
+	if monitorsFor(prop, known) == nil {
 		out.Inconcl = "no monitor for " + prop
 		return
 	}
 	var runErrs []string
+	keys := map[string]bool{}
 	for vi, variant := range pl.variants {
+		// fresh monitors (fresh ghost state) for every chain; coverage is merged afterwards
+		mons := monitorsFor(prop, known)
 		s := seed*1000003 + int64(w)*7919 + int64(vi)*104729
 		profProp := prop
 		if *fProfile != "" {
@@ -171,6 +173,29 @@ func runWorker(prop, tier string, seed int64, w int) (out workerOut) {
 			runErrs = append(runErrs, res.Err.Error())
 		}
 		engines = append(engines, res.Engine)
+		ci := map[string]interface{}{}
+		for _, m := range mons {
+			m.Finish(res.Engine, ci)
+		}
+		if ks, ok := ci["_keys"].([]string); ok {
+			for _, k := range ks {
+				keys[k] = true
+			}
+		}
+		delete(ci, "_keys")
+		var generic map[string]interface{}
+		if bz, err := json.Marshal(ci); err == nil && json.Unmarshal(bz, &generic) == nil {
+			mergeInto(cov, generic)
+		}
+	}
+	{
+		var ks []string
+		for k := range keys {
+			ks = append(ks, k)
+		}
+		sort.Strings(ks)
+		cov["_keys"] = ks
+		cov["distinct_nontrivial"] = len(ks)
 	}
 	if prop == "C14" && len(engines) > 0 && engines[0] != nil {
 		// pure sub-monitor: formatters / validators / parsers on generated and arbitrary strings
@@ -188,9 +213,6 @@ func runWorker(prop, tier string, seed int64, w int) (out workerOut) {
 		cov["pure_ids_formatted"] = pr.Formatted
 		cov["pure_cells"] = pr.Cells
 		cov["pure_samples"] = pr.Samples
-	}
-	for _, m := range mons {
-		m.Finish(engines[len(engines)-1], cov)
 	}
 	stats := map[string]interface{}{}
 	steps, ok, fail, blocks := 0, 0, 0, 0
